@@ -181,9 +181,9 @@ def run_match_path(unit, pattern, addr):
             return int(m_.group(1)) if m_ else 0
         if nm in ("strchr",):
             if isinstance(vals[0], str):      # strchr("literal", c): is c one of these characters
-                return 1 if (vals[1] and chr(vals[1]) in vals[0]) or not vals[1] else 0
+                return 1 if (vals[1] and chr(vals[1] & 0xff) in vals[0]) or not vals[1] else 0
             t = text_from(vals[0])
-            i = t.find(chr(vals[1])) if vals[1] else len(t)
+            i = t.find(chr(vals[1] & 0xff)) if vals[1] else len(t)
             return vals[0] + i if i >= 0 else 0
         if nm in ("strcspn", "strspn") and isinstance(vals[1], str):
             t = text_from(vals[0])
